@@ -74,3 +74,7 @@ def cases(rng, tier):
 
 def search(rng, ops, broken):
     return cases(rng, "quick")
+
+
+# tie theorems (substrings of SLV.Gen.*Tie theorem names) this property's operators depend on
+TIE = ['gen_mbr', 'deduce_of', 'Deduction', 'abduce']
